@@ -110,6 +110,14 @@ def audit_instance(ctx, run, k, s):
     if C0["inputs"].get("INCLUDE_FAT") or C0["inputs"].get("INCLUDE_PROTEIN"):
         return
     case0 = {"country": run.iso, "options": run.opts, "round": k + 1}
+    # hypotheses of the monotonicity theorems, evaluated on this instance
+    I = C0["inputs"]
+    hyp_ok = (float(C0["BILLION_KCALS_NEEDED"]) >= 0 and all(float(I.get(kk, 0.0)) >= 0 for kk in I if kk.startswith("MAX_") and kk.endswith("_HUMANS"))
+              and all(0 <= float(C0.get(w, 0.0)) < 100 for w in ("STORED_FOOD_WASTE_RETAIL", "CROP_WASTE_RETAIL", "MEAT_WASTE_RETAIL", "SCP_RETAIL_WASTE",
+                                                                "CELL_SUGAR_RETAIL_WASTE", "SEAWEED_WASTE_RETAIL")))
+    ctx.count("theorem-hypotheses-hold" if hyp_ok else "theorem-hypotheses-not-met")
+    if not hyp_ok:
+        ctx.notes.append("%s round %d: a hypothesis of the C12 monotonicity theorems (non-negative intake limits / requirement, wastes in [0,100)) does not hold on this instance" % (run.iso, k + 1))
     try:
         z0, _, _ = solve(copy.deepcopy(C0), copy.deepcopy(T0))
     except AssertionError as e:
